@@ -9,7 +9,7 @@ import tempfile
 import threading
 import subprocess
 
-from . import driver
+from . import driver, vacuity
 from .driver import VERIF, REPO, ToolError
 
 LOCK = os.path.join(VERIF, 'obligations.lock')
@@ -35,7 +35,7 @@ def load_known():
 
 def contract_oids(G):
     """obligations defined by the contract files (stable against edits of /repo)"""
-    return {oid: o for oid, o in G.obligations.items() if o['kind'] != 'call-requires' and o.get('origin') != 'R12'}
+    return {oid: o for oid, o in G.obligations.items() if o['kind'] != 'call-requires' and o.get('origin') not in ('R12', 'auto-monotone-loop')}
 
 
 def lock_table(G):
@@ -72,19 +72,60 @@ def cmd_lock(args):
     return 0
 
 
+class _Text:
+    def __init__(self, text):
+        self.text = text
+
+
 def run_pair(G, Gc, wd, rlimit=None):
-    """verus on the real file and on the canary file, concurrently"""
+    """verus on the real file, on the canary file and on the probe file (reachability of every result variant of every trusted
+    contract, vx/vacuity.py), concurrently"""
     out = {}
+    ptext, probes, pskipped = vacuity.make_probes(G.text)
 
     def a():
-        out['main'] = driver.run_verus(G, wd, rlimit=rlimit, threads=10, name='gen.rs')
+        out['main'] = driver.run_verus(G, wd, rlimit=rlimit, threads=8, name='gen.rs')
 
     def b():
-        out['canary'] = driver.run_verus(Gc, wd, rlimit=rlimit, threads=6, name='canary.rs')
+        out['canary'] = driver.run_verus(Gc, wd, rlimit=rlimit, threads=4, name='canary.rs')
 
-    ta, tb = threading.Thread(target=a), threading.Thread(target=b)
-    ta.start(); tb.start(); ta.join(); tb.join()
-    return out['main'], out['canary']
+    def c():
+        out['probes'] = driver.run_verus(_Text(ptext), wd, threads=4, name='probes.rs', multiple_errors=400)
+
+    ts = [threading.Thread(target=f) for f in (a, b, c)]
+    for t in ts:
+        t.start()
+    for t in ts:
+        t.join()
+    return out['main'], out['canary'], (probes, pskipped, out['probes'])
+
+
+def eval_probes(pr):
+    """-> (summary dict, list of tool messages)"""
+    probes, pskipped, res = pr
+    failed, verified, broken = vacuity.evaluate(probes, res['diags'])
+    allow = vacuity.load_allow()
+    byid = {p['id']: p for p in probes}
+    bad = []
+    allowed = []
+    for pid in verified:
+        p = byid[pid]
+        key = '%s/%s' % (p['target'], p['variant'])
+        if key in allow:
+            allowed.append('%s (%s)' % (key, allow[key]))
+        else:
+            bad.append(key)
+    msgs = []
+    compile_errs = [d.get('message', '')[:160] for d in res['diags'] if d.get('level') == 'error' and d.get('code')]
+    if res.get('json') is None or compile_errs:
+        msgs.append('probe file did not go through Verus: %s' % (compile_errs[:2] or res.get('raw_out', '')[:200]))
+    if bad:
+        msgs.append('trusted contract is contradictory: result variant unreachable under the assumed contract of %s (see prelude/vacuity_allow.txt)' % sorted(bad))
+    if broken:
+        msgs.append('probe broken: %s' % broken[:3])
+    summary = {'probes': len(probes), 'failed_as_required': len(failed), 'unreachable_by_design': allowed, 'contradictory': sorted(bad),
+               'not_probed': pskipped, 'wall_s': round(res['wall_s'], 1)}
+    return summary, msgs
 
 
 def site_of(G, oid):
@@ -120,7 +161,7 @@ def check_property(pid, tier, seed, shared=None):
             print('UNDECIDED: %s has obligations in %s, whose body is outside the verifier subset in this tree' % (pid, hit))
             return 2
     mine = {oid: o for oid, o in G.obligations.items() if pid in o['tags']}
-    mine_contract = {oid for oid, o in mine.items() if o['kind'] != 'call-requires' and o.get('origin') != 'R12'}
+    mine_contract = {oid for oid, o in mine.items() if o['kind'] != 'call-requires' and o.get('origin') not in ('R12', 'auto-monotone-loop')}
     locked = {oid for oid, tags in lock.items() if pid in tags}
     if not mine:
         print('UNDECIDED: no obligation carries property %s (vacuous check)' % pid)
@@ -196,6 +237,7 @@ def check_property(pid, tier, seed, shared=None):
             'verus_wall_s': round(res['wall_s'], 2),
             'canaries': {'functions': len(Gc.fns), 'failed_as_required': len(Gc.fns) - len(canary_bad) - len([1 for g in Gc.fns.values() if g.spec.external]),
                          'verified_wrongly': canary_bad},
+            'trusted_contract_probes': extra.get('vacuity'),
             'known_findings_hit': [k[0] for k in known_hit],
             'generated_file_sha256_16': G.hash,
             'items_extracted_verbatim': G.items,
@@ -304,7 +346,7 @@ def run_all(tier):
         Gc = driver.assemble(canary=True, skip=skip)
         wd = tempfile.mkdtemp(prefix='xcpverif-')
         try:
-            res, resc = run_pair(G, Gc, wd, rlimit=(60 if tier == 'thorough' else None))
+            res, resc, pr = run_pair(G, Gc, wd, rlimit=(60 if tier == 'thorough' else None))
         finally:
             shutil.rmtree(wd, ignore_errors=True)
         failed, tool, fn_status = driver.classify(G, res)
@@ -326,9 +368,14 @@ def run_all(tier):
             if (fid + '/canary') not in failedc:
                 canary_bad.append(fid)
     extra = {}
+    vsum, vmsgs = eval_probes(pr)
+    if not tool:
+        tool += vmsgs
+    extra['vacuity'] = vsum
     if tier == 'thorough':
         from . import thorough
         extra = thorough.run(G)
+        extra['vacuity'] = vsum
         if extra.get('tool'):
             tool += extra['tool']
     extra['skipped'] = sorted(skip)
